@@ -140,6 +140,13 @@ def step2 : List String → Option String
       | "gauss1" => some (ev (gauss1Logpdf (cq x) (cq p1) (cq p2)))
       | _ => some "bad-op"
     | _, _, _ => some "bad-op"
+  | ["custom", N, dim, calls] =>
+    match N.toNat?, dim.toNat?, parseMat calls with
+    | some N, some dim, some calls =>
+      match userDefinedSample dim N calls with
+      | some S => some (fmtMat S)
+      | none => some "err"
+    | _, _, _ => some "bad-op"
   -- MHN: what the getters hand to `_MHN_sample`
   | ["mhnread", a, b, c] =>
     match parseRat a, parseRat b, parseRat c with
